@@ -159,7 +159,7 @@ func canaryResult(c *Case) (digest string, flat []float64) {
 				in := make(chan *asset.Snapshot)
 				simrt.GoKind("prod", func() {
 					for _, v := range series {
-						simrt.Yield(-2, "prod-send")
+						prodYield()
 						in <- v
 					}
 					simrt.Yield(-3, "prod-close")
